@@ -269,6 +269,44 @@ func c09Eval(c *ctx, cs c09Case) {
 		c.Class("message-level")
 		if d := real.Snap(viaFill).Diff(real.Snap(viaDirect)); d != "" {
 			c.Violation("C09/message-fill-differs-from-direct", d, cs)
+			return
+		}
+		// round 10: two messages derived from ONE template object (stamped with different session ids and system bytes,
+		// each then filled), looked at only after both exist, and a chain stamp -> fill -> encode -> stamp again whose
+		// first result is re-read at the end: each equals the directly constructed message with its own fields
+		if hits >= 1 {
+			m1, m2 := m, m
+			h := rng.HashStr(ref.Print(cs.Tpl))
+			m1.Session, m2.Session = int(h%65536), int((h>>16)%65536)
+			m1.Sys = [4]byte{byte(h >> 32), byte(h >> 40), byte(h >> 48), byte(h >> 56)}
+			m2.Sys = [4]byte{^m1.Sys[3], ^m1.Sys[2], m1.Sys[1], m1.Sys[0] + 1}
+			var a, b, a2 *ast.DataMessage
+			var first []byte
+			o := real.Try(func() {
+				tm := real.BuildMsg(&m) // carries the session of m, or none
+				sa := tm.SetSessionIDAndSystemBytes(m1.Session, m1.Sys[:])
+				sb := tm.SetSessionIDAndSystemBytes(m2.Session, m2.Sys[:])
+				a, b = sa.FillVariables(raw), sb.FillVariables(raw)
+				first = a.ToBytes()
+				a2 = a.SetSessionIDAndSystemBytes(m2.Session, m2.Sys[:]) // the chain goes on; a stays what it was
+				_ = a2.ToBytes()
+			})
+			var da, db *ast.DataMessage
+			o2 := real.Try(func() { da, db = real.BuildMsgWith(&m1, direct), real.BuildMsgWith(&m2, direct) })
+			if o.Panicked || o2.Panicked {
+				c.Violation("C09/message-fill-refused/siblings", fmt.Sprintf("%s / %s", o, o2), cs)
+				return
+			}
+			c.Class("two-messages-stamped-from-one-template-then-filled")
+			if d := real.Snap(a).Diff(real.Snap(da)); d != "" {
+				c.Violation("C09/message-fill-differs-from-direct/first-of-two-siblings", d, cs)
+			} else if d := real.Snap(b).Diff(real.Snap(db)); d != "" {
+				c.Violation("C09/message-fill-differs-from-direct/second-of-two-siblings", d, cs)
+			} else if d := real.Snap(a2).Diff(real.Snap(db)); d != "" {
+				c.Violation("C09/message-fill-differs-from-direct/restamped-after-encoding", d, cs)
+			} else if !bytes.Equal(first, a.ToBytes()) {
+				c.Violation("C09/message-fill-differs-from-direct/first-encoding-changed-by-a-later-stamp", fmt.Sprintf("%x then %x", clipB(first), clipB(a.ToBytes())), cs)
+			}
 		}
 	}
 	if c.WantSample() && hits >= 2 && len(fs.Str) < 240 && len(cs.Split) > 1 {
@@ -609,7 +647,7 @@ func runC09(c *ctx) {
 			}
 		}
 	}
-	c.Required = []string{"shared-template-filled-by-several-goroutines", "rename-by-string-value", "text-value-that-spells-a-name", "total-assignment", "partial-assignment", "empty-assignment", "out-of-domain-values", "refused-by-both", "split-into-2", "split-into-3", "message-level", "message-observed-before-fill", "fill-in-item-with-its-own-variable", "unfilled-ellipsis-and-unknown-ellipsis-key", "near-miss-unknown-key"}
+	c.Required = []string{"two-messages-stamped-from-one-template-then-filled", "shared-template-filled-by-several-goroutines", "rename-by-string-value", "text-value-that-spells-a-name", "total-assignment", "partial-assignment", "empty-assignment", "out-of-domain-values", "refused-by-both", "split-into-2", "split-into-3", "message-level", "message-observed-before-fill", "fill-in-item-with-its-own-variable", "unfilled-ellipsis-and-unknown-ellipsis-key", "near-miss-unknown-key"}
 }
 
 func replayC09(c *ctx, raw json.RawMessage) {
